@@ -37,6 +37,8 @@ func c03(r *Run) {
 	w := r.W
 	// "none of the action effects are applied" rests on Rollback undoing the log newest-first (decided under C04)
 	defer r.importRules(c04, "C04.R1", "C04.R2")
+	// the fee is Fee(Units(tx, rules of the block)): Units keeps no memo across rule sets
+	defer r.importRules(c07, "C07.R3")
 	ex := r.fn(w, "C03.R1", nmTxExecute)
 	r.rule("C03.R1", "K1", "Deduct succeeds before any Action.Execute; a failed Deduct returns an error", 3)
 	r.rule("C03.R2", "K5", "amount deducted = Fee(Units(...)); Result.Units/Fee are those same values", 5)
